@@ -378,7 +378,7 @@ impl<T: Pat> Out for Hex<T> {
 /// and appends ` name=outcome` (outcome `P` for a panic).
 #[macro_export]
 macro_rules! group_fn {
-    ($fname:ident ; $args:ident ; { $($setup:tt)* } ; $( $name:literal => $e:expr ),* $(,)? ) => {
+    ($fname:ident ; $args:ident ; { $($setup:tt)* } ; $( $name:expr => $e:expr ),* $(,)? ) => {
         #[inline(never)]
         #[allow(unused_variables, unused_mut, unused_assignments, unused_unsafe, unreachable_code)]
         pub fn $fname($args: &$crate::Args, out: &mut String) {
@@ -505,6 +505,24 @@ macro_rules! gen_mods {
                 )*
                 _ => false,
             }
+        }
+    };
+}
+
+/// The type sub-list used for conversions between pairs of types (C09, C13, C16):
+/// `for_cast_types!(cb; pre...)` invokes `cb! { pre... ; (name, Type), ... }`.
+#[macro_export]
+macro_rules! for_cast_types {
+    ($cb:ident ; $($pre:tt)*) => {
+        $cb! { $($pre)* ;
+            (u8x1, BUintD8<1>), (i8x1, BIntD8<1>), (u8x3, BUintD8<3>), (i8x3, BIntD8<3>),
+            (u8x5, BUintD8<5>), (i8x5, BIntD8<5>), (u8x17, BUintD8<17>), (i8x17, BIntD8<17>),
+            (u16x1, BUintD16<1>), (i16x1, BIntD16<1>), (u16x3, BUintD16<3>), (i16x3, BIntD16<3>),
+            (u16x5, BUintD16<5>), (i16x5, BIntD16<5>),
+            (u32x2, BUintD32<2>), (i32x2, BIntD32<2>), (u32x3, BUintD32<3>), (i32x3, BIntD32<3>),
+            (u32x5, BUintD32<5>), (i32x5, BIntD32<5>),
+            (u64x1, BUint<1>), (i64x1, BInt<1>), (u64x2, BUint<2>), (i64x2, BInt<2>),
+            (u64x3, BUint<3>), (i64x3, BInt<3>)
         }
     };
 }
